@@ -48,6 +48,24 @@ Theorem collect_safe : forall h rg minptr maxptr order tls stack,
 Proof. exact MarkSweepProofs.collect_safe_thm. Qed.
 Print Assumptions collect_safe.
 
+(* exactness of the model (it does not over-approximate): marked = registered and (root-flagged
+   or reachable); freed = registered, not root-flagged, not reachable.  Hence the marks the
+   extracted model prints in the correspondence runs ARE the reachable set of the theorems. *)
+Theorem mark_exact : forall h rg minptr maxptr order tls stack fuel m',
+  range_ok rg minptr maxptr -> order_ok rg order ->
+  mark gc_tls_recurses gc_mar_guarded h rg minptr maxptr fuel order tls stack nempty = Ok m' ->
+  forall q, marked m' q = true <->
+            registered rg q = true /\ (is_root rg q = true \/ reach h rg tls stack q).
+Proof. exact MarkSweepProofs.mark_exact_thm. Qed.
+Print Assumptions mark_exact.
+
+Theorem collect_exact : forall h rg minptr maxptr order tls stack fuel rg' fin,
+  range_ok rg minptr maxptr -> order_ok rg order ->
+  collect gc_tls_recurses gc_mar_guarded h rg minptr maxptr fuel order tls stack = Ok (rg', fin) ->
+  forall p, In p fin <-> registered rg p = true /\ is_root rg p = false /\ ~ reach h rg tls stack p.
+Proof. exact MarkSweepProofs.collect_exact_thm. Qed.
+Print Assumptions collect_exact.
+
 (* (5) the same at every collection point of an allocation history: the `nitems > mitems`
    trigger inside alloc (the newborn's address is among the stack words: `extra`) or a forced
    collection; the registry-side invariants (range_ok, order_ok) are re-established *)
